@@ -599,8 +599,8 @@ fn fam_tdefl(s: &Script, st: &mut Stats) -> Result<RunInfo, Violation> {
         let mut sinkc: (Vec<u8>, i64, i64) = (Vec::new(), s.c("putfail"), 0);
         let user = &mut sinkc as *mut (Vec<u8>, i64, i64) as *mut c_void;
         if s.c("reinit") != 0 {
-            // the object has been initialised before, with the other kind of sink
-            let rc0 = c::tdefl_init(cp.as_mut(), if use_cb { None } else { Some(collect_cb) }, user, (flags ^ 0x3) as c_int) as i32;
+            // the object has been initialised before, with the other kind of sink (and the same or other flags)
+            let rc0 = c::tdefl_init(cp.as_mut(), if use_cb { None } else { Some(collect_cb) }, user, (if n % 2 == 0 { flags } else { flags ^ 0x3 }) as c_int) as i32;
             if rc0 != 0 {
                 c::tdefl_deallocate(cp);
                 return viol("C17.init_ok", format!("first tdefl_init = {}", rc0));
@@ -1250,6 +1250,25 @@ fn fam_misuse(s: &Script, st: &mut Stats) -> Result<RunInfo, Violation> {
                     // checksums with NULL
                     if c::mz_adler32(7, std::ptr::null(), 5) != 1 || c::mz_crc32(7, std::ptr::null(), 5) != 0 {
                         return viol("C17.misuse_returns_error_code", "checksum of NULL is not the init value".into());
+                    }
+                    // the two checksum exports in lock-step with the Rust functions over a split of the buffer that
+                    // includes empty (non-NULL) chunks, each update starting from the previous result; the buffer
+                    // ends at an inaccessible page
+                    let n = data.len();
+                    let c1 = (a.unsigned_abs() as usize) % (n + 1);
+                    let c2 = c1 + (b.unsigned_abs() as usize) % (n - c1 + 1);
+                    let (mut ca, mut cc) = (1u32, 0u32);
+                    for (lo, hi) in [(0, c1), (c1, c1), (c1, c2), (c2, c2), (c2, n), (n, n)] {
+                        let sl = std::slice::from_raw_parts(g.ptr.add(lo) as *const u8, hi - lo);
+                        let ra = miniz_oxide::mz_adler32_oxide(ca, sl);
+                        let rc = miniz_oxide_c_api::mz_crc32_oxide(cc, sl);
+                        let xa = c::mz_adler32(ca as libc::c_ulong, g.ptr.add(lo), hi - lo) as u32;
+                        let xc = c::mz_crc32(cc as libc::c_ulong, g.ptr.add(lo), hi - lo) as u32;
+                        if xa != ra || xc != rc {
+                            return viol("C17.same_bytes_as_rust", format!("checksum of bytes {}..{} of {} starting from adler {:#x} / crc {:#x}: mz_adler32 {:#x} vs mz_adler32_oxide {:#x}, mz_crc32 {:#x} vs mz_crc32_oxide {:#x}", lo, hi, n, ca, cc, xa, ra, xc, rc));
+                        }
+                        ca = ra;
+                        cc = rc;
                     }
                 }
             }
